@@ -267,13 +267,17 @@ def gkey(k, style=CANON):
     return gstr(k, style)
 
 
-def pquery(q, style=CANON, depth=0):
+def pquery(q, style=CANON, depth=0, lhs=False):
     out = []
     for i, p in enumerate(q):
         t = p[0]
         if t == "key":
             s = gkey(p[1], style)
-            if i == 0 and style.this_prefix():
+            if i == 0 and not lhs and not (VARNAME.match(p[1]) and p[1] not in KEYWORDS):
+                # a query (right-hand side, let value, argument) that starts with a key that needs quotes is always written with `this.`:
+                # a bare quoted string is a string literal there; on the left of a clause / before a block it is a query
+                out.append("this." + s)
+            elif i == 0 and style.this_prefix():
                 out.append(style.kw("this") + "." + s)
             else:
                 out.append(s if i == 0 else "." + s)
@@ -346,7 +350,7 @@ def pclause(c, style=CANON, depth=0):
             s += style.neg()
         if c.get("some"):
             s += style.kw("some") + style.sp()
-        s += pquery(c["q"], style, depth)
+        s += pquery(c["q"], style, depth, lhs=True)
         s += style.sp() + popr(c["op"], c.get("opneg", False), style)
         if c.get("rhs") is not None:
             s += style.sp() + prhs(c["rhs"], style, depth)
@@ -367,7 +371,7 @@ def pclause(c, style=CANON, depth=0):
         s = ""
         if c.get("some"):
             s += style.kw("some") + " "
-        s += pquery(c["q"], style, depth)
+        s += pquery(c["q"], style, depth, lhs=True)
         if c.get("not_empty"):
             s += " " + style.opnot() + style.kw("empty")
         style.push("block")
